@@ -33,7 +33,7 @@ func init() {
 			"triage/stable stages return a definite sign only on the strict side of their bound; RobustSign calls the expensive stage exactly when triage is Indeterminate; expensiveSign returns " +
 			"Indeterminate only for two identical arguments; exactSign pairs every argument swap with a sign flip and consults the symbolic perturbation exactly when the exact determinant is zero; " +
 			"the exact distance comparisons multiply by a sign only where both signs were found equal; the symbolic perturbation never returns zero.",
-		Min: 12,
+		Min: 16,
 		Run: runStages,
 	})
 	core.Register(&core.Rule{
@@ -654,6 +654,95 @@ func runStages(c *core.Ctx) []core.Obligation {
 		add("CompareDistances:sin2-monotone-range", fn, ok, "sin^2 is compared directly only for cos > K >= 0 and with flipped sign only for cos < K <= 0", why)
 	} else {
 		add("CompareDistances:sin2-monotone-range", nil, false, "", "unresolved anchor")
+	}
+	// (8b) the sin^2 comparisons are valid only when the two distances are on the same side of 90 degrees; the code
+	// relies on the cosine triage, which is valid everywhere, having ALREADY failed to separate them (so they are
+	// nearly equal): every sin^2 triage call is reached only through the "returned 0" edge of a cosine triage.
+	for _, name := range []string{"CompareDistances", "CompareDistance"} {
+		fn := c.Fn("s2", "", name)
+		if fn == nil {
+			add("sin2-after-cos:"+name, nil, false, "", "unresolved anchor")
+			continue
+		}
+		ok, why, n := true, "", 0
+		core.AllInstrs(fn, func(in ssa.Instruction) {
+			call, isCall := in.(*ssa.Call)
+			if !isCall || core.StaticCallee(call) == nil || !strings.HasPrefix(core.StaticCallee(call).Name(), "triageCompareSin2") {
+				return
+			}
+			n++
+			guarded := false
+			for _, b := range fn.Blocks {
+				iff, isIf := b.Instrs[len(b.Instrs)-1].(*ssa.If)
+				if !isIf {
+					continue
+				}
+				bo, isBo := iff.Cond.(*ssa.BinOp)
+				if !isBo || (bo.Op != token.NEQ && bo.Op != token.EQL) {
+					continue
+				}
+				cc, isC := bo.X.(*ssa.Call)
+				if !isC || core.StaticCallee(cc) == nil || !strings.HasPrefix(core.StaticCallee(cc).Name(), "triageCompareCos") {
+					continue
+				}
+				if k, isK := core.ConstInt(bo.Y); !isK || k != 0 {
+					continue
+				}
+				undecided := 1 // sign != 0: false edge
+				if bo.Op == token.EQL {
+					undecided = 0
+				}
+				if core.EdgeDominates(core.Edge{From: b, Idx: undecided}, call.Block()) {
+					guarded = true
+				}
+			}
+			if !guarded {
+				ok, why = false, "a sin^2 comparison runs before (or without) the cosine comparison having returned 0: for distances on opposite sides of 90 degrees - a point near the antipode against a small limit - sin^2 orders them the wrong way round and a definite, wrong answer is returned"
+			}
+		})
+		if n == 0 {
+			ok, why = false, "no sin^2 triage call found"
+		}
+		add("sin2-after-cos:"+name, fn, ok, "every sin^2 triage is reached only after the cosine triage returned 0", why)
+	}
+	// (9) who may call the incomplete stages: triageSign and stableSign may answer Indeterminate and expensiveSign/exactSign
+	// have preconditions; only the staged evaluators (which go on to the next stage) may call them. Anything else that
+	// needs an orientation calls RobustSign/Sign.
+	mayCall := map[string]map[string]bool{
+		"triageSign":    {"s2.RobustSign": true, "(*s2.EdgeCrosser).RestartAt": true, "(*s2.EdgeCrosser).ChainCrossingSign": true},
+		"stableSign":    {"s2.expensiveSign": true},
+		"exactSign":     {"s2.expensiveSign": true},
+		"expensiveSign": {"s2.RobustSign": true, "(*s2.EdgeCrosser).crossingSign": true},
+	}
+	ncall := 0
+	for _, fn := range c.GeoFuncs() {
+		k := 0
+		core.AllInstrs(fn, func(in ssa.Instruction) {
+			ci, isCall := in.(ssa.CallInstruction)
+			if !isCall {
+				return
+			}
+			f := core.StaticCallee(ci)
+			if f == nil || f.Signature.Recv() != nil || f.Pkg == nil || f.Pkg.Pkg.Name() != "s2" {
+				return
+			}
+			allowed, staged := mayCall[f.Name()]
+			if !staged {
+				return
+			}
+			ncall++
+			k++
+			construct := fmt.Sprintf("stage-callers:%s<-%s#%d", f.Name(), core.FuncName(fn), k)
+			if allowed[core.FuncName(fn)] {
+				obs = append(obs, core.Ob("R-STAGES", construct, c.Pos(in.Pos()), core.FuncName(fn), core.Discharged, "called from a staged evaluator that continues with the next stage"))
+			} else {
+				obs = append(obs, core.Ob("R-STAGES", construct, c.Pos(in.Pos()), core.FuncName(fn), core.Violated,
+					f.Name()+" is one stage of the orientation predicate (it can answer Indeterminate, or has preconditions) and is called from outside the staged evaluators: for exactly or nearly collinear points the caller gets no sign, or a sign without the symbolic perturbation - call RobustSign"))
+			}
+		})
+	}
+	if ncall < 4 {
+		add("stage-callers:anchor", nil, false, "", fmt.Sprintf("only %d calls of the stage functions found", ncall))
 	}
 	return obs
 }
